@@ -96,6 +96,8 @@ func (t *ftr) declare(name string, ty types.Type, n ast.Node) {
 		}
 	} else if ty.String() == "error" {
 		v.kind, v.lean, v.zero = "err", "Go.Err", "Go.Err.nil"
+	} else if b, ok := ty.Underlying().(*types.Basic); ok && b.Kind() == types.Bool {
+		v.kind, v.lean, v.zero = "bool", "Bool", "false"
 	}
 	if v.kind == "" {
 		t.fail(n, "unsupported variable type "+ty.String()+" for "+name)
@@ -312,6 +314,8 @@ func (t *ftr) valueAs(e ast.Expr, v svar) string {
 		return term
 	case "err":
 		return t.errExpr(e)
+	case "bool":
+		return t.cond(e)
 	case "int":
 		return t.x.exprAs(e, ityp{v.w, false})
 	}
@@ -322,6 +326,17 @@ func (t *ftr) cond(e ast.Expr) string {
 	switch e := e.(type) {
 	case *ast.ParenExpr:
 		return t.cond(e.X)
+	case *ast.Ident:
+		if e.Name == "true" || e.Name == "false" {
+			return e.Name
+		}
+		if sn := t.x.stateName(e); sn != "" && t.byName[sn].kind == "bool" {
+			return "s." + sn
+		}
+	case *ast.SelectorExpr:
+		if sn := t.x.stateName(e); sn != "" && t.byName[sn].kind == "bool" {
+			return "s." + sn
+		}
 	case *ast.UnaryExpr:
 		if e.Op == token.NOT {
 			return "(!" + t.cond(e.X) + ")"
@@ -485,14 +500,14 @@ func (t *ftr) assign(lhs []ast.Expr, rhs []ast.Expr, tok token.Token, n ast.Node
 			}
 			ups = append(ups, fmt.Sprintf("%s := %s", l.Name, val))
 		case *ast.IndexExpr:
-			id, ok := l.X.(*ast.Ident)
-			if !ok || tok != token.ASSIGN {
+			sn := t.x.stateName(l.X)
+			if sn == "" || t.byName[sn].kind != "bytes" || tok != token.ASSIGN {
 				return t.fail(l, "unsupported store")
 			}
 			idx := t.x.expr(l.Index)
 			gs = append(gs, t.guards(l.Index)...)
-			gs = append(gs, fmt.Sprintf("(%s).toNat < s.%s.length", idx, id.Name))
-			ups = append(ups, fmt.Sprintf("%s := Go.wr s.%s (%s).toNat %s", id.Name, id.Name, idx, t.x.exprAs(rhs[i], ityp{8, false})))
+			gs = append(gs, fmt.Sprintf("(%s).toNat < s.%s.length", idx, sn))
+			ups = append(ups, fmt.Sprintf("%s := Go.wr s.%s (%s).toNat %s", sn, sn, idx, t.x.exprAs(rhs[i], ityp{8, false})))
 		default:
 			return t.fail(lhs[i], "unsupported assignment target")
 		}
@@ -732,6 +747,8 @@ func translateFunc(p *pkgInfo, name string, b *strings.Builder) []string {
 					v.kind, v.lean = "err", "Go.Err"
 				} else if ty.String() == "[]byte" {
 					v.kind, v.lean = "bytes", "Bytes"
+				} else if ty.String() == "bool" {
+					v.kind, v.lean = "bool", "Bool"
 				} else {
 					t.fail(f.Type, "unsupported result type")
 				}
@@ -849,7 +866,7 @@ func writeWireFuncs(p *pkgInfo, outPath string) {
 		"EncodeTag", "EncodeZigZag32", "EncodeZigZag64", "DecodeZigZag32", "DecodeZigZag64",
 		"Decoder.Offset", "Decoder.Reset", "Decoder.DecodeTag", "Decoder.DecodeUInt64", "Decoder.DecodeInt64", "Decoder.DecodeUInt32",
 		"Decoder.DecodeInt32", "Decoder.DecodeSInt32", "Decoder.DecodeSInt64", "Decoder.DecodeFixed32", "Decoder.DecodeFixed64",
-		"Decoder.DecodeBytes", "Decoder.Skip",
+		"Decoder.DecodeBytes", "Decoder.Skip", "Decoder.DecodeBool", "Decoder.More", "Encoder.EncodeBool",
 		"Encoder.EncodeUInt64", "Encoder.EncodeUInt32", "Encoder.EncodeInt64", "Encoder.EncodeInt32", "Encoder.EncodeSInt32", "Encoder.EncodeSInt64"} {
 		if errs := translateFunc(p, fn, &b); len(errs) > 0 {
 			fmt.Println("wire primitive", fn, "is outside the translatable fragment (Bridge/WireFuncs.lean no longer applies):")
